@@ -80,6 +80,45 @@ func (c *envC) Exec(op string) string {
 				return "err"
 			}
 			return Hex(prj.Processes["p"].Command)
+		case len(w) == 4 && w[0] == "dotenv":
+			// inherited environment, a .env file in the working directory, text to expand: a variable of
+			// the process-compose environment - also an empty one - is not overridden by the file
+			inh, ok1 := pairs(w[1])
+			file, ok2 := pairs(w[2])
+			txt, ok3 := UnHex(w[3])
+			if !ok1 || !ok2 || !ok3 {
+				return "bad-op"
+			}
+			if c.dir == "" {
+				c.dir, _ = os.MkdirTemp("", "pcenv")
+			}
+			for _, p := range inh {
+				os.Setenv(p[0], p[1])
+			}
+			body := ""
+			for _, p := range file {
+				body += p[0] + "=" + p[1] + "\n"
+			}
+			_ = os.WriteFile(filepath.Join(c.dir, ".env"), []byte(body), 0o644)
+			cwd, _ := os.Getwd()
+			_ = os.Chdir(c.dir)
+			defer func() {
+				_ = os.Chdir(cwd)
+				_ = os.Remove(filepath.Join(c.dir, ".env"))
+				for _, p := range inh {
+					os.Unsetenv(p[0])
+				}
+				for _, p := range file {
+					os.Unsetenv(p[0])
+				}
+			}()
+			f := filepath.Join(c.dir, "pc.yaml")
+			_ = os.WriteFile(f, []byte("processes:\n  p:\n    command: \""+txt+"\"\n"), 0o644)
+			prj, err := loader.VerifLoadProjectFromFile(f, false)
+			if err != nil {
+				return "err"
+			}
+			return Hex(prj.Processes["p"].Command)
 		case len(w) == 7 && w[0] == "procenv":
 			name, ok := UnHex(w[1])
 			rep, err := strconv.Atoi(w[2])
@@ -177,6 +216,27 @@ func (c *envC) Gen(r *rand.Rand, tier string, emit func(string)) {
 		env := mkEnv()
 		emit(fmt.Sprintf("expand %s %s", encPairs(env), Hex(txt)))
 		emit(fmt.Sprintf("load %s %s", encPairs(env), Hex(txt)))
+	}
+	// .env file against the inherited environment (set, set to the empty string, unset)
+	dn := 60
+	if tier == "thorough" {
+		dn = 3000
+	}
+	dkeys := []string{"VT_A", "VT_B", "VT_C"}
+	for k := 0; k < dn; k++ {
+		var inh, file [][2]string
+		for _, key := range dkeys {
+			switch r.Intn(3) {
+			case 0:
+				inh = append(inh, [2]string{key, "outer" + key})
+			case 1:
+				inh = append(inh, [2]string{key, ""})
+			}
+			if r.Intn(3) > 0 {
+				file = append(file, [2]string{key, []string{"file" + key, "x", ""}[r.Intn(3)]})
+			}
+		}
+		emit(fmt.Sprintf("dotenv %s %s %s", encPairs(inh), encPairs(file), Hex("run $VT_A-${VT_B}-$VT_C.")))
 	}
 	// launch environment: overlaps between the layers, injected keys in every layer
 	keys := []string{"VT_A", "VT_B", "VT_AB", "PC_PROC_NAME", "PC_REPLICA_NUM", "PC_PORT_NUM", "VT_NONE"}
